@@ -25,11 +25,7 @@ Print Assumptions C14_layer_invisible_tree.
 (* forcing or removing isolation on any set of opacity-1 groups, at all depths at once, changes nothing *)
 Theorem C14_isolation_flags_irrelevant : forall f g n bg,
   peq (render (reflag f 0 n) bg) (render (reflag g 0 n) bg).
-Proof.
-  intros f g n bg. transitivity (render n bg).
-  - apply reflag_invisible. reflexivity.
-  - symmetry. apply reflag_invisible. reflexivity.
-Qed.
+Proof. exact flags_irrelevant. Qed.
 Print Assumptions C14_isolation_flags_irrelevant.
 
 Theorem C14_opacity_mul : forall a b p, peq (scale a (scale b p)) (scale (a * b) p).
@@ -63,12 +59,37 @@ Theorem C14_layer_covers_content : forall b W H m px py,
   small_bbox b -> 1 <= W <= CANVAS_MAX -> 1 <= H <= CANVAS_MAX -> max_bbox W H = Some m ->
   in_irect (canvas_rect W H) px py -> touches b 1%Q px py ->
   in_lres (layer_box b true m) px py.
-Proof.
-  intros b W H m px py S HW HH Hm C T.
-  destruct (canvas_in_max_bbox W H HW HH) as [m' [E [V [I _]]]].
-  rewrite Hm in E. inversion E; subst m'. eapply layer_covers_content; eassumption.
-Qed.
+Proof. exact layer_covers_content_canvas. Qed.
 Print Assumptions C14_layer_covers_content.
+
+(* nested layers.  A group inside enclosing layers is laid out in their frame (accumulated origin ox,oy)
+   but clamped against the untranslated max_bbox.  Guarded form: the frame keeps the canvas inside max_bbox. *)
+Theorem C14_nested_layer_covers_content : forall b m W H ox oy px py,
+  small_bbox b -> valid_irect m -> frame_ok W H ox oy m ->
+  in_irect (canvas_rect W H) px py -> touches b 1%Q (px - ox) (py - oy) ->
+  in_lres (layer_box b true m) (px - ox) (py - oy).
+Proof. exact layer_covers_content_frame. Qed.
+Print Assumptions C14_nested_layer_covers_content.
+
+(* one level of nesting always satisfies the guard *)
+Theorem C14_nested_once_ok : forall W H m P px py,
+  1 <= W <= CANVAS_MAX -> 1 <= H <= CANVAS_MAX -> max_bbox W H = Some m ->
+  valid_irect P -> inside P m -> in_irect P px py -> in_irect (canvas_rect W H) px py ->
+  frame_ok W H (ix P) (iy P) m.
+Proof. exact frame_ok_depth1. Qed.
+Print Assumptions C14_nested_once_ok.
+
+(* two levels do not: the faithful model loses visible content (known class nested-layer-clamp) *)
+Theorem C14_nested_layer_covers_content_refuted :
+  exists W H m b1 P1 b2 P2 b3 px py,
+    max_bbox W H = Some m /\ layer_box b1 true m = LBox P1 /\ layer_box b2 true m = LBox P2 /\
+    small_bboxb b3 = true /\
+    in_irect (canvas_rect W H) px py /\ in_irect P1 px py /\ in_irect P2 (px - ix P1) (py - iy P1) /\
+    frame_okb W H (ix P1 + ix P2) (iy P1 + iy P2) m = false /\
+    touches b3 0%Q (px - ix P1 - ix P2) (py - iy P1 - iy P2) /\
+    ~ in_lres (layer_box b3 true m) (px - ix P1 - ix P2) (py - iy P1 - iy P2).
+Proof. exact nested_clamp_refuted. Qed.
+Print Assumptions C14_nested_layer_covers_content_refuted.
 
 (* outside the guard the clause fails in the faithful model: a 2^31-wide group is dropped *)
 Theorem C14_layer_covers_content_refuted :
@@ -105,12 +126,12 @@ Print Assumptions C14_layer_size.
 Example C14_nv_half_outside :
   exists m, max_bbox 100 100 = Some m /\
   layer_box (mk_qrect (60 # 1) (-(30 # 1)) (805 # 10) (705 # 10)) true m = LBox (mk_irect 58 (-32) 85 75).
-Proof. eexists. split; vm_compute; reflexivity. Qed.
+Proof. eexists. split; [vm_compute; reflexivity|]. vm_compute. reflexivity. Qed.
 (* a group 10x the canvas gets the clamped box *)
 Example C14_nv_clamped :
   exists m, max_bbox 100 100 = Some m /\
   layer_box (mk_qrect (-(450 # 1)) (-(450 # 1)) (1000 # 1) (1000 # 1)) true m = LBox (mk_irect (-200) (-200) 500 500).
-Proof. eexists. split; vm_compute; reflexivity. Qed.
+Proof. eexists. split; [vm_compute; reflexivity|]. vm_compute. reflexivity. Qed.
 Example C14_nv_half_alpha :
   peq (render (Grp true (1 # 2) [Draw {| pr := 1; pg := 0; pb := 0; pa := 1 |}]) clear)
       {| pr := 1 # 2; pg := 0; pb := 0; pa := 1 # 2 |}.
